@@ -112,7 +112,8 @@ class Script:
     def start(self, cpl=None):
         if cpl is None:
             cpl = getattr(self, "cpl", CPL)
-        return self.add("start %s %d %s" % (self.cfgid, cpl, hexs(CFG_PATH)))
+        # (the configuration path as it is given on the command line: canonical, or any other spelling of it)
+        return self.add("start %s %d %s" % (self.cfgid, cpl, hexs(getattr(self, "cfg_spelling", CFG_PATH))))
 
     def put(self, path, content=""):
         return self.add("put %s %s" % (hexs(path), hexs(content)))
@@ -429,6 +430,10 @@ def scenarios(tier="quick"):
     s.config(c2)
     add("reload_new_queue", s, ["write 1 " + hexs(CFG_PATH)])
 
+    # a copy that takes several transfers (5000 bytes, at most 1000 per sendfile)
+    s, _ = _pre(); s.putn(A, 5000, 7); s.start(); s.add("chunk 1000"); s.write(7, A)
+    add("drain_chunked", s, ["timeout"])
+
     # the place of a version directory is taken by a stray regular file: the exclusive create fails with ENOTDIR, a
     # failure of the STORE, not a condition of the source: the pass reports it and keeps the entry; after the repair
     # and a restart the version is owed
@@ -549,6 +554,17 @@ def gen_burst_case(rng, deb=None):
             s.dump()
         else:
             s.restart()
+    if rng.random() < 0.15:
+        # a pending file whose directory has meanwhile been replaced by a regular file (a checkout that turns a
+        # directory into a file): it is gone - an expected condition, the pass goes on with what is queued behind it
+        g = WATCH + "/d/c.tar.gz"
+        s.put(g, "content last")
+        s.write(3, g)
+        s.put(WATCH + "/n", "content behind it")
+        s.write(3, WATCH + "/n")
+        s.rm(g)
+        s.add("rmdir %s" % hexs(WATCH + "/d"))
+        s.put(WATCH + "/d", "now a regular file")
     s.tick(deb + 1)
     s.dump()
     s.timeout()
@@ -617,9 +633,15 @@ def gen_collision_case(rng):
     s.start()
     s.exec(3, X + "/vim")
     s.dump()
+    # a second file (same extension) stored in the same timestamps: its names are searched independently
+    d_, b_ = f.rsplit("/", 1)
+    f2 = d_ + "/" + b_.split(".", 1)[0] + "2" + b_[len(b_.split(".", 1)[0]):]
     for i in range(rng.randint(2, 12)):
         s.put(f, "" if rng.random() < 0.15 else "version %d" % i)
         s.write(3, f)
+        if rng.random() < 0.3:
+            s.put(f2, "other %d" % i)
+            s.write(3, f2)
         # the source may change before the copy while the wanted name is already taken
         change = rng.choice(["none"] * 5 + ["delete", "directory", "unreadable"])
         if change == "delete":
@@ -859,6 +881,7 @@ def gen_project_is_root_case(rng):
 # journal stamps as an administrator writes them: none, seconds, constant text, text around the seconds, and
 # date-like ones with slashes (what must not contain a slash is a VERSION, which becomes a file name; a journal stamp may)
 JPATS = ["", "%s", "x", "t%s-", "d/%s", "1/2/%s %%"]
+JPIDS = [3, 4, 3, 4, 99999, 100000, 4194304]      # process ids of one to seven digits (kernel.pid_max goes up to 2^22)
 
 
 def gen_journal_case(rng):
@@ -880,11 +903,11 @@ def gen_journal_case(rng):
             # every write of the operation is cut: a journal line goes out in three or more pieces
             s.oracle("shortall", rng.choice([1, 2, 3, 5, 9]))
         if r < 0.2:
-            s.exec(rng.choice([3, 4]), rng.choice([X + "/vim", X + "/cat"]))
+            s.exec(rng.choice(JPIDS), rng.choice([X + "/vim", X + "/cat"]))
         elif r < 0.6:
             f = rng.choice(files)
             s.put(f, "data%d" % rng.randint(0, 99))
-            s.write(rng.choice([3, 4]), f)
+            s.write(rng.choice(JPIDS), f)
         elif r < 0.7:
             s.tick(1)
         elif r < 0.78:
